@@ -19,7 +19,7 @@ import (
 var origin = gen.V(s2.OriginPoint())
 
 func Run(m *mon.M) {
-	m.Rule = "regions of every kind (cap, lat-lng rectangle, cell, cell union, loop, polygon with holes, polyline with short/long/polar edges, point, full/empty), 1e-7 rad .. whole sphere, at poles / antimeridian / cube corners and edges, with coverer options MinLevel<=MaxLevel over 0..30 (MinLevel capped where a legitimate covering would exceed ~10^4 cells), LevelMod 1..3, MaxCells {1,2,3,4,8,50,500}. A (region, options) pair is non-trivial and distinct when new AND (LevelMod > 1, or MinLevel > 0, or MaxLevel below the level of the region's own cell-union bound)"
+	m.Rule = "regions of every kind (cap, lat-lng rectangle, cell, cell union, loop, polygon with holes, polyline with short/long/polar edges, point, full/empty, RegionUnion of 2..4 of these close together or far apart), 1e-7 rad .. whole sphere, at poles / antimeridian / cube corners and edges, with coverer options MinLevel<=MaxLevel over 0..30 (MinLevel capped where a legitimate covering would exceed ~10^4 cells), LevelMod 1..3, MaxCells {1,2,3,4,8,50,500}. A (region, options) pair is non-trivial and distinct when new AND (LevelMod > 1, or MinLevel > 0, or MaxLevel below the level of the region's own cell-union bound)"
 	m.Assumptions = []string{"points of a region by its exact semantics: internal/ref crossing parity for loops/polygons, the type's own closed membership for caps/rectangles/cells/cell unions, vertices and rounded edge samples for polylines (1e-14 rad neighbourhood)", "a covering contains p when some covering cell contains p as a closed cell (CellFromCellID(id).ContainsPoint(p))"}
 	m.Require("coverings.checked", 30000)
 	m.Require("interior.cells_checked", 30000)
@@ -43,6 +43,9 @@ type region struct {
 	diam   float64               // rough angular diameter
 	center s2.Point
 	desc   func() any
+	// pointsExact: every listed point is a point of the region (no filtering by in, which then is a
+	// sufficient membership test that may omit members without interior)
+	pointsExact bool
 }
 
 func ringsPolygon(r *rand.Rand, ctr s2.Point, rad float64) (*s2.Polygon, func(s2.Point) bool, []s2.Point) {
@@ -190,11 +193,66 @@ func (f fineBoundRegion) CellUnionBound() []s2.CellID { return append([]s2.CellI
 
 func genRegion(r *rand.Rand) *region {
 	ctr := gen.RandCenter(r)
-	rg := &region{center: ctr}
 	size := gen.LogUniform(r, 1e-7, 1.4)
 	if r.Intn(3) == 0 {
 		size = 0.05 + r.Float64()
 	}
+	if r.Intn(12) != 0 {
+		return genRegionAt(r, ctr, size)
+	}
+	// a RegionUnion of 2..4 regions of any kind, close to each other or far apart
+	var members []*region
+	var ru s2.RegionUnion
+	for k := 2 + r.Intn(3); k > 0; k-- {
+		at := ctr
+		switch r.Intn(3) {
+		case 0:
+			at = gen.Near(r, ctr, size*2*r.Float64())
+		case 1:
+			at = gen.RandCenter(r)
+		}
+		m := genRegionAt(r, at, size*gen.LogUniform(r, 0.1, 1))
+		if m == nil || m.kind == "CapWithFineCellUnionBound" {
+			continue
+		}
+		members = append(members, m)
+		ru = append(ru, m.r)
+	}
+	if len(members) < 2 {
+		return nil
+	}
+	rg := &region{center: ctr, kind: "RegionUnion", r: ru, pointsExact: true}
+	kinds := ""
+	for _, m := range members {
+		kinds += m.kind + " "
+		for _, p := range m.points {
+			if m.in == nil || m.in(p) {
+				rg.points = append(rg.points, p)
+			}
+		}
+		rg.cells = append(rg.cells, m.cells...)
+		rg.diam = math.Max(rg.diam, math.Min(math.Pi, 2*ctr.Distance(m.center).Radians()+m.diam)) // the extent of the whole union
+	}
+	rg.in = func(p s2.Point) bool {
+		for _, m := range members {
+			if m.in != nil && m.in(p) {
+				return true
+			}
+		}
+		return false
+	}
+	rg.desc = func() any {
+		var ds []any
+		for _, m := range members {
+			ds = append(ds, map[string]any{"kind": m.kind, "detail": m.desc()})
+		}
+		return map[string]any{"members": kinds, "member_details": ds}
+	}
+	return rg
+}
+
+func genRegionAt(r *rand.Rand, ctr s2.Point, size float64) *region {
+	rg := &region{center: ctr}
 	switch r.Intn(11) {
 	case 0, 1: // cap
 		rad := size
@@ -504,7 +562,7 @@ func coverCase(c *mon.Case) {
 			cells[i] = s2.CellFromCellID(id)
 		}
 		for _, p := range rg.points {
-			if rg.in != nil && !rg.in(p) {
+			if !rg.pointsExact && rg.in != nil && !rg.in(p) {
 				continue // a generated boundary probe that is not a point of the region
 			}
 			c.Count("region_points.checked", 1)
@@ -627,7 +685,7 @@ func coverCase(c *mon.Case) {
 			bad := s2.Point{}
 			found := false
 			for _, s := range rg.points {
-				if (rg.in == nil || rg.in(s)) && inCellStrict(cell, s) {
+				if (rg.pointsExact || rg.in == nil || rg.in(s)) && inCellStrict(cell, s) {
 					bad, found = s, true
 					break
 				}
